@@ -115,6 +115,11 @@ func StructGoType(s *ref.Struct) reflect.Type {
 			order[len(s.Fields)-1-i] = f
 		}
 	}
+	holderField := reflect.StructField{Name: "_unknownFields", PkgPath: "github.com/cloudwego/frugal/zverif/universe", Type: tBytes}
+	if s.Unknown && s.UnknownFirst {
+		s.UnkIdx = 0
+		sf = append(sf, holderField)
+	}
 	for i, f := range order {
 		if f.Name == "" {
 			f.Name = fmt.Sprintf("F%d", i)
@@ -126,9 +131,9 @@ func StructGoType(s *ref.Struct) reflect.Type {
 		}
 		sf = append(sf, reflect.StructField{Name: f.Name, Type: GoType(f.Type), Tag: reflect.StructTag(tag)})
 	}
-	if s.Unknown {
+	if s.Unknown && !s.UnknownFirst {
 		s.UnkIdx = len(sf)
-		sf = append(sf, reflect.StructField{Name: "_unknownFields", PkgPath: "github.com/cloudwego/frugal/zverif/universe", Type: tBytes})
+		sf = append(sf, holderField)
 	}
 	s.GoType = reflect.StructOf(sf)
 	return s.GoType
